@@ -117,6 +117,33 @@ fn check_writer_cli(shape: &[usize], scratch: &Scratch) -> Vec<Viol> {
     }
 }
 
+/// `sfs view -O npy` to a piped stdout for spectra whose *binary* values contain the byte 0x0A
+/// (stdout is line-buffered: a newline byte inside the data must not influence what is written).
+fn check_writer_cli_newline_bytes(which: usize, scratch: &Scratch) -> Vec<Viol> {
+    let nl = f64::from_bits(0x400A_0A0A_0A0A_0A0A);
+    let (shape, values): (Vec<usize>, Vec<f64>) = match which {
+        0 => (vec![400], (0..400).map(|i| if i == 0 { 3.25 } else { i as f64 }).collect()),
+        1 => (vec![20, 20], (0..400).map(|_| nl).collect()),
+        2 => (vec![3000], (0..3000).map(|i| if i % 100 == 7 { 3.25 } else { 1.0 + i as f64 }).collect()),
+        _ => (vec![5, 300], (0..1500).map(|i| if i == 1 { nl } else { 0.5 }).collect()),
+    };
+    let x = RefArray { shape: shape.clone(), data: values.clone() };
+    let input = text_of(&x);
+    let o = run_sfs(&["view", "-O", "npy"], Stdin::Bytes(input.as_bytes()), scratch);
+    let case = J::obj([("kind", J::s("c15-writer-cli-nl")), ("which", J::u(which))]);
+    if !o.ok() {
+        return vec![("C15|cli|writer-failed|newline-bytes".into(), format!("sfs view -O npy on shape {shape:?}: {} {}", o.status_str(), o.stderr_str()), case)];
+    }
+    match check_written(&o.stdout, &shape, &values) {
+        Ok(()) => vec![],
+        Err(e) => vec![(
+            format!("C15|cli|writer-nonconforming|newline-bytes|{}", norm_msg(&e)),
+            format!("sfs view -O npy to a pipe, shape {shape:?} with 0x0A bytes inside the values: {} bytes written, invalid NPY 1.0 file: {e}", o.stdout.len()),
+            case,
+        )],
+    }
+}
+
 // ---------------------------------------------------------------------------------------------
 
 #[derive(Clone)]
@@ -197,6 +224,21 @@ fn eval_read(c: &ReadCase) -> Option<Viol> {
                         ),
                         case(),
                     ));
+                }
+            }
+            // the same file delivered in 1-, 7- and 13-byte reads must give the same values
+            let shared = std::sync::Arc::new(bytes.clone());
+            for k in [1usize, 7, 13] {
+                let (reader, _log) = crate::seam::ChunkedReader::new(shared.clone(), crate::seam::Schedule::periodic(k));
+                match catch(move || Array::read_npy(reader).map(|a| (a.shape().to_vec(), a.as_slice().to_vec()))) {
+                    Ok(Ok((s2, v2))) if s2 == s && v2.len() == vals.len() && v2.iter().zip(&vals).all(|(a, b)| a.to_bits() == b.to_bits()) => {}
+                    other => {
+                        return Some((
+                            format!("C15|lib|read-depends-on-chunking|{}{}", c.order, c.ty),
+                            format!("{class}: read in {k}-byte chunks gives {:?}, in one piece {s:?} {vals:?}", other.map(|r| r.map_err(|e| e.to_string()))),
+                            case(),
+                        ))
+                    }
                 }
             }
             None
@@ -451,7 +493,7 @@ pub fn run(tier: Tier) -> i32 {
         name: "lib: reader matrix".into(),
         evaluations: cases.len() as u64,
         nontrivial: nt,
-        note: format!("10 dtypes x byte orders x 3 versions x {} spellings x 1-D/2-D, boundary values", sp.len()),
+        note: format!("10 dtypes x byte orders x 3 versions x {} spellings x 1-D/2-D, boundary values; every file also read in 1-, 7- and 13-byte chunks", sp.len()),
         exhaustive: true,
         extra: vec![],
     });
@@ -559,6 +601,18 @@ pub fn run(tier: Tier) -> i32 {
         exhaustive: true,
         extra: vec![],
     });
+    let res = par_map(4, |i| check_writer_cli_newline_bytes(i, &scratch));
+    for v in res.into_iter().flatten() {
+        rep.violation(v.0, v.1, v.2);
+    }
+    rep.part(Part {
+        name: "cli: view -O npy to a pipe, values containing 0x0A bytes".into(),
+        evaluations: 4,
+        nontrivial: 4,
+        note: "400..3000 entries whose little-endian bytes contain newline bytes at the start, everywhere, periodically, and once followed by > 1 KiB of data".into(),
+        exhaustive: true,
+        extra: vec![],
+    });
     let res = par_map(files.len(), |i| eval_corpus(&files[i], Some(&scratch)));
     for v in res.into_iter().flatten() {
         rep.violation(v.0, v.1, v.2);
@@ -587,6 +641,10 @@ pub fn replay(case: &J) -> Option<Vec<String>> {
         "c15-writer-cli" => {
             let scratch = Scratch::new("c15r");
             Some(fmt(check_writer_cli(&case.get("shape")?.as_usizes()?, &scratch)))
+        }
+        "c15-writer-cli-nl" => {
+            let scratch = Scratch::new("c15r");
+            Some(fmt(check_writer_cli_newline_bytes(case.get("which")?.as_i64()? as usize, &scratch)))
         }
         "c15-corpus" => {
             let name = case.get("name")?.as_str()?;
